@@ -5,9 +5,9 @@
  "properties": {"C13": "contract", "C11": "contract", "C19": "safety"},
  "mode": "harness",
  "replace_calls": {"nextchar": "nextchar_abs"},
- "kind": "bounded",
+ "kind": "bounded", "unwind": 24, "unwind_failure": "violation",
  "bound": "files of at most 10 logical characters (all byte values) after the '/' that may open the comment, each preceded by 0 or 1 backslash-newline pair; both loops of comment() unwound 12 times",
- "unwindset": ["comment.0:12", "comment.1:12"],
+ "unwindset": ["comment.0:12", "comment.1:12", "gs_build.0:50", "gs_build.1:50", "gs_build.2:50"],
  "cflags": ["-DG_IN_MAX=40"],
  "stubs": ["base.c", "ghost_stdio.c"],
  "cbmc_flags": ["--drop-unused-functions"],
